@@ -443,11 +443,20 @@ def run_history(args):
 
 class Check(PropertyCheck):
     prop = "C12"
-    module = "LLBuild.Props.C12"
+    module = "LLBuild.Props.C12All"
     theorems = ["LLBuild.DirTree." + t for t in [
         "C12_tree_recipe_is_modelled", "C12_struct_recipe_is_modelled", "C12_nil_marker_extracted",
         "C12_tree_sig_injective", "C12_struct_sig", "C12_content_edit_keeps_struct_sig",
-        "C12_add_remove_retype_changes_struct_sig", "C12_change_at_any_depth", "C12_filter_exact", "C12_F32_before_repair"]]
+        "C12_add_remove_retype_changes_struct_sig", "C12_change_at_any_depth", "C12_filter_exact", "C12_F32_before_repair",
+        # Props/C12Engine.lean: the directory tasks as an engine Program; rerun-iff over accepted engine traces
+        "C12_client_WF", "C12_client_LocalIds", "C12_client_not_Det",
+        "C12_clean_signature_iff", "C12_clean_contents_iff",
+        "C12_built_value", "C12_build_returns_current",
+        "C12_tree_changed_not_up_to_date", "C12_struct_changed_not_up_to_date",
+        "C12_tree_unchanged_is_current", "C12_struct_unchanged_is_current",
+        "C12_up_to_date_is_current", "C12_delivered_is_current",
+        "C12_tree_changed_never_up_to_date", "C12_struct_changed_never_up_to_date",
+        "C12_tree_unchanged_stays_current", "C12_struct_unchanged_stays_current"]]
     extractors = ["x_dirtree", "x_codec"]
     harnesses = []
     level = "proof"
@@ -455,7 +464,7 @@ class Check(PropertyCheck):
         "theorems are about pre-hash terms: llvm::hash_combine / hash_combine_range (64-bit) are NOT injective; equal terms <=> equal observations, distinct terms collide with probability ~2^-64",
         "libc fnmatch is the abstract parameter Cfg.fnmatch (the definition of 'matches'); the end-to-end check calls the same libc fnmatch through ctypes",
         "names returned by readdir are NUL-free and a listing packs into < 2^64 bytes (hypothesis `Listed`, the StringList precondition of C15)",
-        "rerun-iff-signature-changed rests on the engine (C01/C02) and on the validity predicates of the per-directory keys; it is checked end-to-end through the real tool, not proved here",
+        "rerun-iff on the engine (Props/C12Engine.lean) is proved for the directory tasks written as an Engine.Program (Lemmas/DirTreeEngine.lean: hand-written from BuildSystem.cpp, the request structure is the one x_dirtree compares textually); the directory listing is an input key there (the real (Filtered)DirectoryContentsTask reads the directory inside inputsAvailable and relies on its validity check resp. the directory's stat record to notice changes); input-key validity is full equality of the stat record (FileInfo== ignores mode, see below); the tie of that Program to the real tool is the end-to-end rerun oracle, not a trace replay",
         "FileInfo::operator== ignores `mode` (C13_eq_iff): a permission-only change is not observable until another field of the same node changes; the oracle models this ('sticky mode')",
         "a directory whose entry set changes gets a new mtime (the harness stamps it from a logical clock, as a kernel with a fine-grained clock does); symbolic links to an ancestor directory are not generated",
     ]
